@@ -87,6 +87,12 @@ func parseLocation(zone string) (*time.Location, error) {
 		return tm.Location(), nil
 	}
 	if tm, err := time.Parse("Z07:00", zone); err == nil {
+		if tm.Location() == time.Local {
+			// an offset the process time zone also uses: keep it an offset,
+			// not a zone with daylight-saving rules
+			_, offset := tm.Zone()
+			return time.FixedZone("", offset), nil
+		}
 		return tm.Location(), nil
 	}
 	if zone == "Local" {
